@@ -327,6 +327,7 @@ def main():
     ap.add_argument("--repo", default="/repo")
     ap.add_argument("--verif", default="/verif")
     ap.add_argument("--noreplay", action="store_true")
+    ap.add_argument("--no-evidence", action="store_true")
     ap.add_argument("--prop", default="C20")
     a = ap.parse_args()
     t0 = time.time()
@@ -478,8 +479,9 @@ def run(a, work, t0, seed):
               assumptions=["libc/syscall stubs follow the man pages: read returns -1, 0 or 1..len and does not touch errno on success; select returns -1/EINTR, 0 or 1; errno is arbitrary on entry",
                            "logging (_whawty_logf) has an empty body", "strings passed in are NUL-terminated with non-NUL content"],
               wall_s=round(wall, 2), violations=nviol)
-    os.makedirs(os.path.join(a.verif, "evidence"), exist_ok=True)
-    json.dump(ev, open(os.path.join(a.verif, "evidence", a.prop + ".json"), "w"), indent=1)
+    if not a.no_evidence:
+        os.makedirs(os.path.join(a.verif, "evidence"), exist_ok=True)
+        json.dump(ev, open(os.path.join(a.verif, "evidence", a.prop + ".json"), "w"), indent=1)
     print("RESULT property=%s tier=%s scenarios=%d paths=%d queries=%d obligations=%d discharged=%d violations=%d known=%d inconclusive=%d wall=%.1fs" %
           (a.prop, a.tier, nscen, total.paths, total.queries, obligations, discharged, nviol, nknown, inconclusive, wall))
     if nviol:
